@@ -10,7 +10,7 @@ sys.path.insert(0, os.path.join(vf.VERIF, "lib"))
 import c09chain
 
 META = {
-    "text": "23 theorems (Coq, no axioms). Slot level (8+2): one owning producer index per instant, slots ((k-1)iv, k*iv] rotating mod n, "
+    "text": "25 theorems (Coq, no axioms). Slot level (10+2): clock and block timestamps on one grid (a timestamp is future iff its slot is >= 2 ahead of the slot of the clock reading, for every sub-ms phase), one owning producer index per instant, slots ((k-1)iv, k*iv] rotating mod n, "
             "two valid signers of a timestamp are equal, non-members never valid, >= 2 intervals ahead is future; signed digest covers every "
             "header field but Sign (cites C19). Chain-service level (Dpos/Accept.v mirrors addBlock/addBlockInternal/chainProcessor/"
             "resolveOrphan/orphan pool/reorg in the order the code checks), FULL for every arrival sequence (any order, duplicates, "
@@ -18,8 +18,8 @@ META = {
             "signer owns its slot in the producer set in force after its own parent (induction over arrivals with the orphan-pool "
             "invariant); stored side-branch blocks and parked orphans satisfy the signature and clock clauses; forged / always-future "
             "blocks are never kept. PARTIAL: same-chain-same-producers while BPCOUNT is unchanged (C08's F23). REFUTED witnesses kept: "
-            "parent clause for the unrepaired reorg (flag f42 false; fixed in 05cfcb8b); raftv2 checks only the signature, sbp nothing "
-            "(property written for DPoS). Tie to /repo on every run: real slot package, real DPoS verification functions, a real "
+            "parent clause for the unrepaired reorg (flag f42 false; fixed in 05cfcb8b); a clock rounded to the ms; raftv2 checks only the signature, sbp nothing "
+            "(property written for DPoS). Tie to /repo on every run: real slot package incl. a clock-bracket predicate (n0 <= Now().timeNs <= n1, indices of that reading), real DPoS verification functions, a real "
             "ChainService fed real signed blocks behind (A) an adapter with the DPoS bodies + scripted set changes and (B) the real DPoS "
             "object (result, consensus call order, main chain, chain DB, orphan pool, errBlocks after every arrival, vm_compute compare), "
             "real raftv2/sbp factories, g5's election family (real NewStatus/bp.Snapshots over forks, boundaries, restarts), and the "
@@ -74,6 +74,12 @@ def gen_slot_cases(ctx):
         ivns = iv * 10 ** 9
         for q in range(-12, 13):
             cases.append(("F", iv, 1, q * ivns // 4, 0))
+    # clock bracket: slot.Now() is the slot of a clock reading taken between two readings of our own
+    for iv in ivs:
+        cases.append(("C", iv, 1, 150, rng.randrange(0, 2 ** 62)))
+    if not quick:
+        # phase probe: IsFuture asked during the last half millisecond of a slot
+        cases.append(("P", 1, 1, 6, 40))
     return cases
 
 
@@ -116,10 +122,16 @@ def run(ctx):
     rc, log = ctx.run_bin(slotbin, ["-test.run", "TestVerifSlotEngine"], env={"VERIF_IN": fin, "VERIF_OUT": fout})
     if rc != 0:
         raise RuntimeError("slot engine failed:\n" + log[-3000:])
-    S, F, R = [], [], []
+    S, F, R, CB, TM, PH = [], [], [], [], [], []
     for line in open(fout):
         p = line.split()
-        if p[0] == "S":
+        if p[0] == "C":
+            CB.append([int(x) for x in p[1:]])
+        elif p[0] == "T":
+            TM.append([int(x) for x in p[1:]])
+        elif p[0] == "P":
+            PH.append((int(p[1]), int(p[2]), int(p[3]), int(p[4]), p[5] == "true", int(p[6]), p[7] == "true"))
+        elif p[0] == "S":
             S.append([int(x) for x in p[1:]])
         elif p[0] == "F":
             F.append((int(p[1]), int(p[2]), int(p[3]), int(p[4]), p[5] == "true"))
@@ -150,8 +162,13 @@ def run(ctx):
             "  Bool.eqb (is_future (from_unix_ns iv ts) (from_unix_ns iv n0)) r || Bool.eqb (is_future (from_unix_ns iv ts) (from_unix_ns iv n1)) r.",
             "Definition fcases := [%s]." % ";\n".join(fut),
             "Definition MF := Eval vm_compute in mismatches_from fut_ok fcases 0.", "Print MF."]
+    clk = ["((%s,%s,%s),(%s,%s,%s,%s))" % (Z(iv * 1000), Z(n0), Z(n1), Z(ns), Z(ms), Z(pi), Z(ni))
+           for iv, n0, ns, n1, ms, pi, ni, m0, rem, m1 in CB]
+    clk += ["((%s,%s,%s),(%s,%s,%s,%s))" % (Z(iv * 1000), Z(t), Z(t), Z(ns), Z(ms), Z(pi), Z(ni)) for iv, t, ns, ms, pi, ni in TM]
+    txt += ["Definition ccases := [%s]." % ";\n".join(clk),
+            "Definition MC := Eval vm_compute in mismatches_from clock_case_ok ccases 0.", "Print MC."]
     slot_txt = txt            # evaluated below together with the block validity cases (one coqc start-up)
-    evals = len(S) + len(R) + len(F)
+    evals = len(S) + len(R) + len(F) + len(CB) + len(TM) + len(PH)
     corr_broken = None
     # direct predicate on the implementation: uniqueness of owner per instant, slot partition
     pred_fail = []
@@ -161,6 +178,41 @@ def run(ctx):
             pred_fail.append(("owner index out of range", [iv, n, ns, bi]))
     for x in S[:3]:
         ctx.sample({"slot_case(iv_s,n,ns,ms,prev,next,owner)": x})
+    # clock bracket (direct, no model): the slot of the local clock is the slot of a reading of the real
+    # clock taken during the call, on the same grid as block timestamps (ms = ns // 10^6, index = ceil(ms/iv))
+    clock_bad = []
+    for c in CB:
+        iv, n0, ns, n1, ms, pi, ni, m0, rem, m1 = c
+        ivms = iv * 1000
+        if not (n0 <= ns <= n1):
+            clock_bad.append(("slot.Now() carries a time outside the bracket of the real clock around the call "
+                              "(%+d ns after the later reading)" % (ns - n1) if ns > n1 else
+                              "slot.Now() carries a time before the earlier clock reading (%d ns)" % (n0 - ns), c))
+        elif ms != ns // 10 ** 6 or ni != (ms + ivms - 1) // ivms or pi != (ms - 1) // ivms:
+            clock_bad.append(("slot.Now(): millisecond / slot indices are not those of its own clock reading", c))
+        elif not (ni * ivms - m1 <= rem <= ni * ivms - m0):
+            clock_bad.append(("Slot.RemainingTimeMS is not the distance from the bracketed clock to the slot end", c))
+    if CB and all(c[2] % 10 ** 6 == 0 for c in CB) and not all(c[1] % 10 ** 6 == 0 for c in CB):
+        clock_bad.append(("slot.Now() drops the sub-millisecond part of the clock reading (every reading is a whole millisecond "
+                          "while the real clock is not): the clock is not on the grid of block timestamps", CB[:3]))
+    for iv, t, ns, ms, pi, ni in TM:
+        ivms = iv * 1000
+        if ns != t or ms != t // 10 ** 6 or ni != (ms + ivms - 1) // ivms:
+            clock_bad.append(("slot.Time(t) is not the slot of t's own nanoseconds", [iv, t, ns, ms, pi, ni]))
+    nprobe = 0
+    for iv, t0, ts, t1, got, t2, near in PH:
+        ivms = iv * 1000
+        sl = lambda ns: (ns // 10 ** 6 + ivms - 1) // ivms
+        if sl(t0) == sl(t1):
+            nprobe += 1
+            if sl(ts) >= sl(t0) + 2 and not got:
+                clock_bad.append(("timestamp two slots ahead of the clock not reported as future (clock %d us into the last ms of its slot)"
+                                  % ((t0 % 10 ** 6) // 1000), [iv, t0, ts, t1, got]))
+        if sl(t1) == sl(t2) and near and sl(ts) - 1 <= sl(t1) + 1:
+            clock_bad.append(("timestamp of the next slot reported as future", [iv, t1, ts, t2, near]))
+    for what, c in clock_bad[:3]:
+        pred_fail.append(("C09:clock-off-grid", what, {"clock_case": c, "legend": "C: iv_s n0 now.timeNs n1 timeMs prev next ms0 remaining ms1"}))
+    ctx.cov["clock_bracket"] = {"calls": len(CB), "phase_probes_kept": nprobe}
 
     # ---- membership / signature / future on real blocks
     rng = ctx.rng
@@ -266,18 +318,19 @@ def run(ctx):
            "Definition M := Eval vm_compute in mismatches_from vok cases 0.", "Print M."]
     rc, out = ctx.coq_eval("slot_valid_cases", "\n".join(txt))
     mall = parse_all(out) if rc == 0 else None
-    if mall is None or len(mall) != nchunks + 3:
+    if mall is None or len(mall) != nchunks + 4:
         corr_broken = ("slot / validity correspondence could not be evaluated", out[-2000:])
     else:
         smis = []
         for k in range(nchunks):
             smis += [k * CH + i for i in mall[k]]
-        for name, idxs, src in zip(("slot", "relations", "future"), [smis, mall[nchunks], mall[nchunks + 1]], (S, R, F)):
+        for name, idxs, src in zip(("slot", "relations", "future", "clock bracket"),
+                                   [smis, mall[nchunks], mall[nchunks + 1], mall[nchunks + 2]], (S, R, F, CB + TM)):
             if idxs:
                 corr_broken = ("model/implementation differ on %s cases" % name, [src[i] for i in idxs[:5]])
-        if mall[nchunks + 2]:
+        if mall[nchunks + 3]:
             corr_broken = corr_broken or ("model/implementation differ on block validity",
-                                          [dict(case=dc[i], obs=obs[i]) for i in mall[nchunks + 2][:5]])
+                                          [dict(case=dc[i], obs=obs[i]) for i in mall[nchunks + 3][:5]])
     ctx.sample({"block_case": dc[0], "obs": obs[0]})
     ctx.sample({"block_case": dc[-1], "obs": obs[-1]})
     evals += len(dc)
